@@ -43,6 +43,35 @@ AREAS = {
                 "forms with the same refusal of future times, same handling of None / default time.",
 }
 
+AREAS4 = {
+    "r-logger": "pams/logs/base.py (Logger.write / bulk_write / write_and_direct_process / _process / process and the Log.read_and_write* "
+                "helpers) and pams/logs/market_step_loggers.py: dispatch table for the per-kind handlers, clearer buffering; every "
+                "record must reach process() and its handler exactly as before, also for user loggers that override process(), "
+                "only some handlers, or the write methods.",
+    "r-session": "pams/session.py Session.setup and pams/runners/sequential.py _generate_sessions: table-driven parsing of the optional "
+                 "and obsolete keys (fresh state per Session object, nothing shared between sessions or runs), one helper that creates "
+                 "and registers the events of a session; same defaults, same warnings, same order of event set-up and hook registration.",
+    "r-jsonutils": "pams/utils/json_random.py, pams/utils/json_extends.py, pams/utils/class_finder.py: clearer structure with helpers; "
+                   "never modify any argument or shared state (settings dicts, bounds lists, class lists), same draws from the "
+                   "generator in the same order, same exceptions for malformed input, cycles, missing parents and ambiguous names.",
+    "r-expiry": "pams/order_book.py: the expiry bookkeeping (expire_time_list, _check_expired_orders, _set_time, _update_time, add, "
+                "cancel, _remove, change_order_volume): tidy up with helpers while keeping the priority queue a valid heap at all "
+                "times, same ExpirationLogs in the same order, same behaviour for cancels of orders that are already gone.",
+    "r-haltrule": "pams/events/trading_halt_rule.py and pams/events/price_limit_rule.py: restructure hooked_after_execution / "
+                  "hooked_before_step_for_market / hooked_before_order / get_limited_price with small helpers; read the public "
+                  "target_markets dict at the time of each call (user subclasses extend it), same arithmetic expression for the "
+                  "threshold (same floating-point operations in the same order), same state changes in the same order.",
+    "r-runloop": "pams/runners/sequential.py: _run, _iterate_market_updates, _collect_orders_from_normal_agents and the session loop: "
+                 "factor helpers for the begin/end log records and the per-step sequence; same records through the same logger "
+                 "methods in the same order, hooks fired at the same points whether or not a logger is present, same random draws.",
+    "r-agents2": "pams/agents/fcn_agent.py, market_maker_agent.py, arbitrage_agent.py, market_share_fcn_agent.py: split the long "
+                 "submit_orders* methods into helpers (log-return terms, base price, basket construction) without any caching "
+                 "across calls; same floating-point expressions in the same order, same random draws, same orders.",
+    "r-simclock": "pams/simulator.py: _update_times_on_markets / _update_time_on_market / _add_market / _add_agent / "
+                  "_update_agents_for_execution: helpers and clearer dispatch (isinstance-based, subclasses included); same order of "
+                  "market updates (index markets after their components), same holdings arithmetic per fill, in fill order.",
+}
+
 TEMPLATE = """You are working in a git worktree of the open-source Python project masanorihirano/pams (PAMS: a pure-Python agent-based artificial market simulator) at {wt}. Work ONLY inside {wt}: do not read, list or modify /repo, /verif or any directory outside {wt} (the Python standard library / site-packages are fine).
 
 Interpreter: /venv/bin/python. Test suite:
@@ -64,7 +93,8 @@ Deliverables inside {wt}: the change left applied (uncommitted); {wt}/patch.diff
 def main():
     rd = sys.argv[1]
     os.makedirs(rd, exist_ok=True)
-    for name, area in AREAS.items():
+    areas = AREAS4 if (len(sys.argv) > 2 and sys.argv[2] == "4") else AREAS
+    for name, area in areas.items():
         wt = os.path.join(rd, name)
         open(os.path.join(rd, "prompt_%s.txt" % name), "w").write(TEMPLATE.format(wt=wt, area=area))
         if not os.path.isdir(wt):
